@@ -921,3 +921,23 @@ func (sel *Select) waitReal() int {
 	}
 	return i
 }
+
+// Threads describes every live thread other than the caller (id:name@operation);
+// harnesses use it to observe what is still running at a chosen moment.
+func Threads() []string {
+	if s == nil {
+		return nil
+	}
+	var out []string
+	for _, t := range s.threads {
+		if t.exited || t == s.cur {
+			continue
+		}
+		l := "?"
+		if t.op != nil {
+			l = t.op.label
+		}
+		out = append(out, fmt.Sprintf("%d:%s@%s", t.id, t.name, l))
+	}
+	return out
+}
